@@ -83,11 +83,12 @@ Inductive fresult :=
 Record fstate := { f_next : N; f_match : N; f_snap : option (snap * N) (* open snapshot being sent, read offset *) }.
 Definition fstate0 : fstate := {| f_next := 0; f_match := 0; f_snap := None |}.
 
-Record rop := { ro_fid : N; ro_type : optype; ro_payload : N; ro_read_index : N; ro_verified : bool }.
+Record rop := { ro_fid : N; ro_type : optype; ro_payload : N; ro_read_index : N; ro_verified : bool;
+                ro_round : N (* heartbeat rounds started when the read was submitted *) }.
 
 (* &votesRecieved / &numResponses: one shared counter per call of
    sendRequestVoteToPeers / sendAppendEntriesToPeers. *)
-Record round := { r_id : N; r_count : N }.
+Record round := { r_id : N; r_count : N; r_stamp : N (* operationManager.rounds when the round was started *) }.
 
 (* goroutines spawned by `go r.send...` that have not yet taken the lock *)
 Inductive task :=
@@ -121,6 +122,7 @@ Record node := {
   n_pending : list (N * N);      (* pendingReplicated: index -> future id *)
   n_ro : list rop;               (* pendingReadOnly *)
   n_should_verify : bool;
+  n_hb_rounds : N;               (* operationManager.rounds *)
   n_lease : N;                   (* lease expiration (absolute) *)
   n_contact : N;                 (* lastContact (absolute) *)
   n_rounds : list round; n_next_round : N;
@@ -140,7 +142,7 @@ Record node := {
 
 #[export] Instance eta_node : Settable _ := settable! Build_node
   <n_id; n_et; n_ld; n_pterm; n_pvote; n_term; n_vote; n_log; n_snaps; n_partial; n_open; n_role; n_commit; n_applied; n_lii; n_lit;
-   n_conf; n_cconf; n_leader; n_followers; n_pending; n_ro; n_should_verify; n_lease; n_contact;
+   n_conf; n_cconf; n_leader; n_followers; n_pending; n_ro; n_should_verify; n_hb_rounds; n_lease; n_contact;
    n_rounds; n_next_round; n_tasks; n_cv; n_iswait; n_fsm; n_snap_every; n_budget; n_frozen; n_out;
    n_results; n_applies>.
 #[export] Instance eta_conds : Settable _ := settable! Build_conds <cv_apply; cv_commit; cv_ro; cv_election; cv_snapshot>.
